@@ -284,7 +284,39 @@ let cmd_population line =
   done;
   print_endline (Buffer.contents b)
 
-let commands : (string * (string -> unit)) list ref = ref [ ("population", cmd_population); ("replay", cmd_replay); ("forces", cmd_forces); ("geometry", cmd_geometry); ("valid", cmd_valid); ("cellcycle", cmd_cellcycle); ("kernel", cmd_kernel); ("grid", cmd_grid); ("integrate", cmd_integrate) ]
+(* ---------------------------------------------------------------- C16 cell-data file at token level *)
+let cmd_vtk line =
+  let t = Array.of_list (toks line) in
+  let pos = ref 0 in
+  let next () = let s = t.(!pos) in incr pos; s in
+  let ni () = int_of_string (next ()) in
+  let nc = ni () in
+  let cells = List.init nc (fun _ ->
+    let ty = ni () in let nn = ni () in
+    let coords = List.init (3 * nn) (fun _ -> Printf.sprintf "%.4e" (Float64.to_float (f_of_s (next ())))) in
+    let nf = ni () in
+    let faces = List.init nf (fun _ -> let a = ni () in let b = ni () in let c = ni () in ((int_to_n a, int_to_n b), int_to_n c)) in
+    { w_coords = coords; w_faces = faces; w_type = int_to_n ty }) in
+  let file = vtk_write cells in
+  let b = Buffer.create 65536 in
+  List.iter (fun tk -> Buffer.add_string b (match tk with
+    | KPoints -> " POINTS" | KCells -> " CELLS" | KCellTypes -> " CELL_TYPES" | KCellData -> " CELL_DATA" | KFieldTypeId -> " cell_type_id" | KOther -> " OTHER"
+    | I n -> Printf.sprintf " %d" (n_to_int n) | X x -> " " ^ x)) file;
+  Buffer.add_string b " ||";
+  let sem (s : string) = match float_of_string_opt s with Some v when Float.is_finite v -> Some v | _ -> None in
+  (match vtk_read sem file with
+   | Err _ -> Buffer.add_string b " ERR"
+   | Ok (ms, tys) ->
+     List.iter (fun m ->
+       Buffer.add_string b (Printf.sprintf " %d" (List.length m.r_coords / 3));
+       List.iter (fun v -> Buffer.add_string b (Printf.sprintf " %h" v)) m.r_coords;
+       Buffer.add_string b (Printf.sprintf " %d" (List.length m.r_faces));
+       List.iter (fun f -> Buffer.add_string b (Printf.sprintf " %d" (List.length f)); List.iter (fun x -> Buffer.add_string b (Printf.sprintf " %d" (n_to_int x))) f) m.r_faces) ms;
+     Buffer.add_string b " |";
+     List.iter (fun x -> Buffer.add_string b (Printf.sprintf " %d" (n_to_int x))) tys);
+  print_endline (Buffer.contents b)
+
+let commands : (string * (string -> unit)) list ref = ref [ ("vtk", cmd_vtk); ("population", cmd_population); ("replay", cmd_replay); ("forces", cmd_forces); ("geometry", cmd_geometry); ("valid", cmd_valid); ("cellcycle", cmd_cellcycle); ("kernel", cmd_kernel); ("grid", cmd_grid); ("integrate", cmd_integrate) ]
 
 let () =
   let cmd = Sys.argv.(1) in
